@@ -245,3 +245,7 @@ extend("C14", "Engine V proves at shape level, for ALL curves and tolerances: kn
               "the proved contracts of knot_remove / degree_decrease), keep the representation invariant, never enlarge the curve, and raise only AssertionError for a "
               "negative tolerance, with the curve unchanged.")
 ENGINE_V += ["C14"]
+extend("C08", "Engine V proves, for curves with ANY number of control points, that copy and the operators with a scalar operand (-A, A + s, s + A, A - s, s - A, A * s, s * A, A / s) "
+              "return a NEW curve on a new knot-vector object with control points -P_i, s + P_i, ... , P_i / s element-wise (ZeroDivisionError exactly for s == 0), the same "
+              "weights, and leave the operand unchanged; that such control points give the pointwise result is the partition of unity, decided per shape by engine S.")
+ENGINE_V += ["C08"]
